@@ -14,12 +14,13 @@ Variable lock : N.
 Variable midcheck : bool.
 Variable postcopy : bool.
 Variable recheck : bool.
+Variable freshrule : bool.
 
 Local Notation state := (state data).
 Local Notation restoreL := (restore data zero lock).
 Local Notation txs_ok := (txs_ok data lock).
 Local Notation tx_ok := (tx_ok data lock).
-Local Notation step := (step data lock midcheck postcopy recheck).
+Local Notation step := (step data lock midcheck postcopy recheck freshrule).
 Local Notation label_ok := (label_ok data lock).
 
 Ltac simp := cbn -[restore flen apply ltx_snapshot ltx_incremental view dbfile firstn skipn].
@@ -66,6 +67,16 @@ Proof. apply inv_core. reflexivity. Qed.
 Lemma inv_set_wlock s w : inv s -> inv (set_wlock data s w).
 Proof. apply inv_core. reflexivity. Qed.
 Lemma inv_set_opened s : inv s -> inv (set_opened data s).
+Proof. apply inv_core. reflexivity. Qed.
+Lemma inv_set_ss s x : inv s -> inv (set_ss data s x).
+Proof. apply inv_core. reflexivity. Qed.
+Lemma inv_set_openmark s b : inv s -> inv (set_openmark data s b).
+Proof. apply inv_core. reflexivity. Qed.
+Lemma inv_set_snap s x : inv s -> inv (set_snap data s x).
+Proof. apply inv_core. reflexivity. Qed.
+Lemma inv_add_snap s x : inv s -> inv (add_snap data s x).
+Proof. apply inv_core. reflexivity. Qed.
+Lemma inv_set_closed s : inv s -> inv (set_closed data s).
 Proof. apply inv_core. reflexivity. Qed.
 Lemma inv_set_flag s b : inv s -> inv (set_flag data s b).
 Proof. apply inv_core. reflexivity. Qed.
@@ -273,7 +284,7 @@ Proof.
     + simp. apply acks_after_write. exact H8.
 Qed.
 
-Lemma verify_incrat s : verify data s = VIncrAt -> l0 data s <> [] /\ cgen data s = gen data s.
+Lemma verify_incrat s : verify data freshrule s = VIncrAt -> l0 data s <> [] /\ cgen data s = gen data s.
 Proof.
   unfold verify. destruct (l0 data s) eqn:El; [discriminate|].
   intros H. split; [discriminate|].
@@ -284,11 +295,12 @@ Proof.
   destruct (cfo data s =? 1); [discriminate|].
   destruct (tag_at data (phys data s) (cfo data s - 1)); [|discriminate].
   destruct (negb (n =? cgen data s)); [discriminate|]. cbn in H.
+  destruct (freshrule && (lastoff data s =? 0)); [discriminate|].
   destruct (detect_full data (phys data s) (gen data s) (cgen data s)); discriminate.
 Qed.
 
 Lemma verify_incrhdr s cl :
-  verify data s = VIncrHdr cl ->
+  verify data freshrule s = VIncrHdr cl ->
   l0 data s <> [] /\ (length (phys data s) < cfo data s \/ cgen data s <> gen data s).
 Proof.
   unfold verify. destruct (l0 data s) eqn:El; [discriminate|].
@@ -303,13 +315,13 @@ Proof.
   destruct (negb (n =? cgen data s)); discriminate.
 Qed.
 
-Lemma inv_do_sync s k s' : inv s -> do_sync data lock s k = Some s' -> inv s'.
+Lemma inv_do_sync s k s' : inv s -> do_sync data lock freshrule s k = Some s' -> inv s'.
 Proof.
   intros H. unfold do_sync.
   destruct (opened data s); cbn [negb]; [|discriminate].
   destruct (phys data s) as [|p0 pr] eqn:Ep; [discriminate|].
   assert (Hp : phys data s <> []) by (rewrite Ep; discriminate).
-  destruct (verify data s) as [| |cl] eqn:Ev.
+  destruct (verify data freshrule s) as [| |cl] eqn:Ev.
   - intros E. inversion E; subst. apply inv_snapshot; assumption.
   - destruct (idx data (txs data s) (cfo data s)) as [c|] eqn:Ei; [|discriminate].
     intros E. eapply inv_incr; [exact H|exact E|].
@@ -339,31 +351,32 @@ Proof.
   - destruct (reset_enabled data s); [|discriminate]. inversion E; subst.
     apply inv_reset_trunc. exact H.
   - destruct (opened data s); [discriminate|]. destruct (pc data s); try discriminate.
-    inversion E; subst. apply inv_set_mark, inv_set_opened. exact H.
+    inversion E; subst. apply inv_set_openmark, inv_set_mark, inv_set_opened. exact H.
   - destruct (pc data s); try discriminate.
     + eapply inv_do_sync; eauto.
-    + destruct (do_sync data lock s k) eqn:Ed; [|discriminate]. inversion E; subst.
+    + destruct (do_sync data lock freshrule s k) eqn:Ed; [|discriminate]. inversion E; subst.
       apply inv_set_pc. eapply inv_do_sync; eauto.
-    + destruct (do_sync data lock s k) eqn:Ed; [|discriminate]. inversion E; subst.
+    + destruct (do_sync data lock freshrule s k) eqn:Ed; [|discriminate]. inversion E; subst.
       apply inv_set_pc. eapply inv_do_sync; eauto.
     + destruct (needs_post postcopy m rb); [|discriminate].
-      destruct (do_sync data lock s k) eqn:Ed; [|discriminate]. inversion E; subst.
+      destruct (do_sync data lock freshrule s k) eqn:Ed; [|discriminate]. inversion E; subst.
       apply inv_set_pc. eapply inv_do_sync; eauto.
-    + destruct (do_sync data lock s k) eqn:Ed; [|discriminate]. inversion E; subst.
+    + destruct (do_sync data lock freshrule s k) eqn:Ed; [|discriminate]. inversion E; subst.
       apply inv_set_pc. eapply inv_do_sync; eauto.
   - destruct (pc data s); try discriminate. destruct (l0 data s) eqn:El; [discriminate|].
     destruct ((cgen data s =? gen data s) && (cfo data s =? flen data (txs data s))) eqn:Eg; [|discriminate].
     inversion E; subst. apply andb_prop in Eg. destruct Eg as [E1 E2].
     apply Nat.eqb_eq in E1, E2. apply inv_add_ack; assumption.
   - destruct (pc data s); try discriminate. destruct (phys data s); [discriminate|].
+    destruct (snap data s); [discriminate|].
     destruct (opened data s); [|discriminate]. inversion E; subst. apply inv_set_pc. exact H.
   - destruct (pc data s) as [| |m0 hg0| | | | | | | | | | | |]; try discriminate.
     + destruct m0; try discriminate. inversion E; subst. apply inv_set_wlock, inv_set_pc. exact H.
     + inversion E; subst. apply inv_set_wlock, inv_set_pc. exact H.
   - destruct (pc data s) as [| |m0 hg0| |hg0| | | | | | | | | |]; try discriminate.
     + destruct (mode_eqb m0 Passive); [discriminate|]. inversion E; subst.
-      apply inv_set_mark, inv_set_pc. exact H.
-    + inversion E; subst. apply inv_set_mark, inv_set_pc. exact H.
+      apply inv_set_openmark, inv_set_mark, inv_set_pc. exact H.
+    + inversion E; subst. apply inv_set_openmark, inv_set_mark, inv_set_pc. exact H.
   - destruct (pc data s) as [| | | | |m0 hg0 pre0| | | | | | | | |]; try discriminate.
     destruct (ls_mark data s); [discriminate|].
     destruct m0.
@@ -377,7 +390,7 @@ Proof.
     + destruct (j =? length (txs data s)) eqn:Ej; [|discriminate]. apply Nat.eqb_eq in Ej.
       inversion E; subst. apply inv_set_pc, inv_reset_trunc, inv_set_backfill; [lia|exact H].
   - destruct (pc data s); try discriminate. destruct (ls_mark data s); [discriminate|].
-    inversion E; subst. apply inv_set_mark. exact H.
+    inversion E; subst. apply inv_set_openmark, inv_set_mark. exact H.
   - destruct (pc data s); try discriminate. destruct (ls_mark data s); [|discriminate].
     inversion E; subst. apply inv_set_pc. exact H.
   - destruct (pc data s); try discriminate.
@@ -390,15 +403,25 @@ Proof.
   - destruct (pc data s) as [| | | | | | | | | |m0 hg0 pre0 wn0 rb0| | | |]; try discriminate.
     destruct (ck_decide m0 hg0 (gen data s) pre0 wn0 rb0); inversion E; subst; apply inv_set_pc; exact H.
   - destruct (pc data s); try discriminate. destruct (phys data s) eqn:Ep; [discriminate|].
+    destruct (opened data s); [|discriminate].
     inversion E; subst. apply inv_set_wlock, inv_set_pc, inv_snapshot; [exact H|].
     rewrite Ep. discriminate.
   - destruct (pc data s); try discriminate. destruct (opened data s); [|discriminate].
-    inversion E; subst. apply inv_set_mark, inv_set_pc. exact H.
+    inversion E; subst. apply inv_set_closed. exact H.
+  - destruct (opened data s); [|discriminate]. inversion E; subst. apply inv_set_closed. exact H.
+  - destruct (pc data s); try discriminate. destruct (l0 data s); [discriminate|].
+    destruct (snap data s); [discriminate|]. destruct (opened data s); [|discriminate].
+    inversion E; subst. apply inv_set_snap. exact H.
+  - destruct (snap data s) as [[[[p we] sc] sg]|]; [|discriminate]. destruct (phys data s); [discriminate|].
+    destruct (opened data s); [|discriminate].
+    destruct (snap_idx data (txs data s) we); [|discriminate].
+    inversion E; subst. apply inv_add_snap, inv_set_snap. exact H.
+  - destruct (pc data s); try discriminate. inversion E; subst. apply inv_set_pc. exact H.
 Qed.
 
 Lemma init_inv s : init_ok data zero lock s -> inv s.
 Proof.
-  intros [H1 [H2 [H3 [H4 [H5 [H6 [H7 [H8 [H9 [H10 [H11 H12]]]]]]]]]]].
+  intros [H1 [H2 [H3 [H4 [H5 [H6 [H7 [H8 [H9 [H10 [H11 [H12 [H13 [H14 H15]]]]]]]]]]]]]].
   constructor; try assumption.
   - intros Hl. contradiction.
   - unfold cur_inv. rewrite H12. exact I.
